@@ -62,6 +62,17 @@ func HarnessC06(fam, nT, nV, convCode, form, sv, mode int) {
 		}
 	})
 	vnCover("C06.redefine-returned")
+	// Redefine with a type filter on the inputs (symbolic type), which routes the
+	// planning through the converters
+	ft := []int{hTP0, hTP1, hTI}[hPick("filterType", 3)]
+	hGuard("Redefine", w.classifyPanic, func() {
+		f, err := w.Funcs[0].Redefine(append(append([]Arg{}, args...), FilterInput(FilterType(hType(ft))))...)
+		if err != nil {
+			_ = err.Error()
+		} else if f != nil {
+			_ = f.Input().Values()
+		}
+	})
 	if len(w.Target.In) > 0 {
 		hGuard("Convert", w.classifyPanic, func() {
 			_, err := Convert(hType(w.Target.In[0].T), args...)
